@@ -75,6 +75,31 @@ def step1 (d : DSt) (line : String) : DSt × String :=
         -- extracted fact: in removeSession the map entry is deleted before the file entry
         -- (hypothesis `.memFirst` of C12_logout_final_interleaved)
         (d, verdict (impl == ["memfirst"]) (if impl == ["memfirst"] then none else some "C12.logout-order") "memfirst")
+      | "C12.loginlock", [] =>
+        -- fact: controlLock is held while the registered login handler evaluates the password
+        -- (hypothesis `lock = true` of C12_logins_serialised_under_lock)
+        (d, verdict (impl == ["held"]) (if impl == ["held"] then none else some "C12.login-lock") "held")
+      | "C12.burst", [some _, some peer, some k] =>
+        if !d.ok then (d, "bad-op") else
+        -- K simultaneous wrong passwords: serialised, i.e. one after the other
+        let req : Req := ⟨peer, none, false⟩
+        let run := (List.range k).foldl (fun (acc : St × Nat × Nat) _ =>
+          let r := handleLogin acc.1 d.now req false 0
+          match r.1 with
+          | .forbidden => (r.2, acc.2.1 + 1, acc.2.2)
+          | _ => (r.2, acc.2.1, acc.2.2 + 1)) (d.st, 0, 0)
+        let mstr := "\t".intercalate ([toString run.2.1, toString run.2.2, "0"] ++ showDump run.1)
+        -- monitor: the observed answers, the evaluated ones first, must each be allowed
+        let i403 := (impl.headD "x").toNat?.getD 0
+        let i429 := ((impl.drop 1).headD "x").toNat?.getD 0
+        let iOther := ((impl.drop 2).headD "x").toNat?.getD 1
+        let obsList : List LoginRes := List.replicate i403 .forbidden ++ List.replicate i429 (.tooMany 0)
+        let fin := obsList.foldl (fun (acc : Bool × Spec) r =>
+          let s := specStep acc.2 d.now (.login req false 0) (.login r)
+          (acc.1 && s.1, s.2)) (true, d.sp)
+        let ok := fin.1 && iOther == 0 && i403 + i429 == k
+        ({ d with st := run.1, sp := fin.2 },
+         verdict (mstr == "\t".intercalate impl) (if ok then none else some "C12.throttle:burst") mstr)
       | "C12.logoutrace", [some slot] =>
         if !d.ok || !d.dbOK then (d, "bad-op") else
         let tokM := (d.mslots slot).getD (bogusTok slot)
